@@ -6,11 +6,12 @@ only (links as a native executable).
 import Driver.Index
 import Driver.Construct
 import Driver.Hist
+import Driver.Scalar
 
 open Driver
 
 def dispatch (w : World) (ws : List String) : World × String :=
-  match (cmdIndex ws <|> cmdConstruct ws) with
+  match (cmdIndex ws <|> cmdConstruct ws <|> cmdScalar ws) with
   | some s => (w, s)
   | none =>
     match stepHist w ws with
